@@ -16,6 +16,7 @@ Matches(e) == /\ epoch' = Val(e.epoch) /\ prev' = e.prev /\ isInit' = (e.init = 
               /\ (e.op = "get" => reading' = Val(e.reading))
 Step(e) == CASE e.op = "adv" -> Advance(e.arg)
              [] e.op = "get" -> GetNow
+             [] e.op = "keep" -> KeepAlive
              [] e.op = "set" -> SetNow(Val(e.arg))
 TInit == /\ tid \in 1..Len(Traces) /\ l = 1 /\ bad = 0
          /\ msLow = Traces[tid].phase /\ epoch = Invalid /\ prev = 0 /\ isInit = FALSE /\ lastSync = Invalid
